@@ -357,15 +357,20 @@ class RefMG:
         f = self.lv[l]["f"]
         return [Fr(0) if i in f else x for i, x in enumerate(v)]
 
-    def defect(self, l, b, x):
+    def defect(self, l, b, x, counted=True):
+        """filtered residual b - A x; every residual that needs a matrix product is one `D<l>` event of the log
+        (not counted: the residual of the zero initial guess, and the shortcut update under adaptive correction)"""
+        if counted:
+            self.log.append("D%d" % l)
         return self.F(l, [p - q for p, q in zip(b, mv(self.lv[l]["A"], x))])
 
     def smooth(self, l, slot, tag, b, x):
         m = self.lv[l]["s"][slot]
         if m is None:
             return x
+        d = self.defect(l, b, x)
         self.log.append("%s%d" % (tag, l))
-        c = self.F(l, mv(m, self.defect(l, b, x)))
+        c = self.F(l, mv(m, d))
         return [p + q for p, q in zip(x, c)]
 
     def peak(self, l, b, x):
@@ -374,16 +379,18 @@ class RefMG:
         x = self.smooth(l, 0, "a", b, x)
         return self.smooth(l, 1, "b", b, x)
 
-    def correct(self, kind, l, b, x):
+    def correct(self, kind, l, b, x, zero_guess=False):
         """coarse grid correction of x on level l by one cycle of type `kind` on level l+1"""
         lev = self.lv[l]
-        d = self.defect(l, b, x)
+        d = self.defect(l, b, x, counted=not zero_guess)
         self.log.append("R%d" % l)
         bc = self.F(l + 1, mv(lev["R"], d))
         xc = self.cycle(kind, l + 1, bc)
         self.log.append("P%d" % l)
         c = self.F(l, mv(lev["P"], xc))
         om = Fr(1)
+        if self.cgc != 0:
+            self.log.append("M%d" % l)  # the product A*c is formed once per adaptive correction
         if self.cgc == 1:
             # minimise the energy norm of the error: <b - A x, c> / <A c, c>
             r = [p - q for p, q in zip(b, mv(lev["A"], x))]
@@ -415,14 +422,16 @@ class RefMG:
             self.log.append("a%d" % l)
             x = mv(m, b)
         first = {"V": "V", "W": "W", "F": "Fi", "Fi": "Fi"}[kind]
-        x = self.correct(first, l, b, x)
+        x = self.correct(first, l, b, x, zero_guess=(m is None))
         if kind in ("W", "Fi"):
             x = self.peak(l, b, x)
             x = self.correct("W" if kind == "W" else "V", l, b, x)
         m = self.lv[l]["s"][1]
         if m is not None:
+            # with adaptive correction the defect is updated by the shortcut def - omega*A*c: no new matrix product
+            d = self.defect(l, b, x, counted=(self.cgc == 0))
             self.log.append("b%d" % l)
-            x = [p + q for p, q in zip(x, mv(m, self.defect(l, b, x)))]
+            x = [p + q for p, q in zip(x, mv(m, d))]
         return x
 
 
@@ -588,16 +597,19 @@ RATES = {}
 
 def rate_oracle(case, out):
     t = case.split()
-    nl, cyc, cgc = int(t[1]), int(t[2]), int(t[3])
+    op, nl, cyc, cgc = t[0], int(t[1]), int(t[2]), int(t[3])
+    dim = "2D" if op == "rate2d" else "1D"
     o = out.split()
     if len(o) != 5 or o[0] != "RATE":
         return "rate measurement failed: " + out[:100]
     worst = float(o[3])
-    RATES["%s cgc=%d NL=%d" % ("VFW"[cyc], cgc, nl)] = worst
+    key = "%s %s cgc=%d NL=%%d" % (dim, "VFW"[cyc], cgc)
+    RATES[key % nl] = worst
     if not worst < 0.9:
         return "measured defect contraction %.3f per cycle on %d levels (alarm threshold 0.9)" % (worst, nl)
-    prev = RATES.get("%s cgc=%d NL=%d" % ("VFW"[cyc], cgc, nl - 1))
-    if prev is not None and nl >= 5 and worst > prev + 0.05:
+    prev = RATES.get(key % (nl - 1))
+    # the first levels are a transient (two-grid -> multigrid); growth is an alarm only in the asymptotic range
+    if prev is not None and nl >= (6 if dim == "2D" else 5) and worst > prev + 0.05:
         return "measured contraction grows from %.3f (%d levels) to %.3f (%d levels)" % (prev, nl - 1, worst, nl)
     return None
 
@@ -624,7 +636,7 @@ def nontrivial(case):
 
 def describe(case):
     if case.startswith("rate"):
-        return ["op:rate"]
+        return ["op:" + case.split()[0]]
     try:
         op, ns, levels, apps = parse_case(case)
     except Exception:
@@ -683,8 +695,10 @@ def main(argv):
         cases = CORPUS + enum_control_cases() + gen_cases(rng, 6000 if args.tier == "quick" else 80000)
         if args.tier == "thorough":
             rate_cases = ["rate %d %d %d" % (nl, cyc, cgc) for cyc in range(3) for cgc in range(3) for nl in range(2, 9)]
+            rate_cases += ["rate2d %d %d %d" % (nl, cyc, cgc) for cyc in range(3) for cgc in range(3) for nl in range(2, 8)]
         else:
             rate_cases = ["rate %d %d 0" % (nl, cyc) for cyc in range(3) for nl in range(2, 7)]
+            rate_cases += ["rate2d %d %d %d" % (nl, cyc, cgc) for cyc in range(3) for cgc in (1, 2) for nl in range(2, 6)]
     streams = []
     if cases:
         streams.append(vlib.Stream("multigrid", cases, [binary], vlib.driver_cmd(PROP), oracle=oracle,
@@ -731,6 +745,8 @@ def main(argv):
         "level-independent convergence rate is measured at double (thorough tier), not proved"],
         extra_cov={"rule": stats_rule, "measured_contraction_numbers": RATES, "vanishing_cgc_denominator_events": VANISHING,
                    "measured_only": "worst defect reduction per cycle over 8 cycles on nested 1D P1 Poisson problems (3..511 "
-                                    "unknowns, 2..8 levels, 2 damped Jacobi steps pre/post, exact coarse solve), real "
-                                    "MultiGrid at double; alarm if > 0.9 or growing by > 0.05 per level beyond 4 levels"})
+                                    "unknowns, 2..8 levels) and on 2-D 5-point Poisson problems (1..127^2 unknowns, 2..7 "
+                                    "levels, bilinear transfer), 2 damped Jacobi steps pre/post, exact coarse solve, all "
+                                    "three coarse grid correction modes, real MultiGrid at double; alarm if > 0.9 or "
+                                    "growing by > 0.05 per level beyond 4 (1D) / 5 (2D) levels"})
     return rc
